@@ -1956,7 +1956,7 @@ def c20(ctx):
                     srv.close()
                     srv = Server(ctx.binary, mem_kb=3 * 1024 * 1024)
         # liveness after the whole history
-        st, j = shot(json.dumps(gen.utility_request(rnd)).encode(), 'liveness probe after the history', 200)
+        st, j = shot(json.dumps(gen.utility_request(rnd, 'weightedSum')).encode(), 'liveness probe after the history', 200)
     finally:
         srv.close()
     # the model decides accept / reject like the service on the valid and the invalid stream
